@@ -14,6 +14,7 @@ import (
 const wait = 4 * time.Second
 
 type scen struct {
+	udp      bool // pipeline over datagram framing
 	pipeline bool
 	maxCq    int
 	plans    []poolx.ConnPlan
@@ -52,7 +53,9 @@ func emit(w *hx.Writer, id string, sc scen, s *poolx.Session, closed bool, queri
 func runScen(w *hx.Writer, id, desc string, sc scen) {
 	world := poolx.NewWorld(sc.plans)
 	var t poolx.Transport
-	if sc.pipeline {
+	if sc.pipeline && sc.udp {
+		t = poolx.NewPipelineUDP(world, sc.maxCq, 16)
+	} else if sc.pipeline {
 		t = poolx.NewPipeline(world, sc.maxCq, 16)
 	} else {
 		t = poolx.NewReuse(world)
@@ -159,7 +162,26 @@ func main() {
 						must: func(q int) bool { return q >= m }})
 			}
 		}
+		// m connections that each served one query and are closed by the server only when it reads the NEXT query
+		// (clean EOF with the query in flight): the probe query may be written to at most the retry budget of them
+		for _, m := range []int{5, 6, 8} {
+			plans := repeatPlan(poolx.ConnPlan{Dial: "ok", Answer: 1, After: "closelate", HoldAll: true}, m)
+			plans = append(plans, repeatPlan(poolx.ConnPlan{Dial: "ok", Answer: 100, After: "healthy"}, 3)...)
+			do(fmt.Sprintf("cat:%s:stale-closelate-%d", tn, m), "pool of m connections closed by the server after it reads the next query, then 2 more queries",
+				scen{pipeline: pl, maxCq: 1, plans: plans, run: stale(m, 2, false),
+					must: func(q int) bool { return q < m }}) // the probes may legitimately use up their budget on dying connections
+		}
 		if pl {
+			// datagram framing: a connection whose next send fails (its read side stays silent) must be given up,
+			// and the query retried on another connection
+			for k := 1; k <= 2; k++ {
+				do(fmt.Sprintf("cat:pipeline-udp:reset-after-%d", k), "datagram framing; every connection's send fails after k replies",
+					scen{pipeline: true, udp: true, maxCq: 8, plans: repeatPlan(poolx.ConnPlan{Dial: "ok", Answer: k, After: "reset"}, 8), run: seq(6),
+						must: func(int) bool { return true }})
+			}
+			do("cat:pipeline-udp:seq-close-after-1", "datagram framing; sequential stream; read side fails after one reply",
+				scen{pipeline: true, udp: true, maxCq: 8, plans: repeatPlan(poolx.ConnPlan{Dial: "ok", Answer: 1, After: "rst"}, 8), run: seq(6),
+					must: func(int) bool { return true }})
 			for _, k := range []int{2, 4, 8} {
 				do(fmt.Sprintf("cat:%s:inflight-eof-slow-close-%d", tn, k), "k queries in flight on one connection, the server goes away, Close of the socket is slow",
 					scen{pipeline: pl, maxCq: 16, plans: []poolx.ConnPlan{{Dial: "ok", Answer: 100, After: "healthy", HoldAll: true, SlowClose: 60 * time.Millisecond}},
